@@ -18,6 +18,7 @@
 import BufrModel.Lemmas.Query
 import BufrModel.Lemmas.QueryEval
 import BufrModel.Lemmas.QueryShape
+import BufrModel.Lemmas.QueryBare
 import BufrModel.Props.C09
 namespace Bufr
 open Bufr.Query Bufr.PathLang Bufr.C16
@@ -418,29 +419,146 @@ theorem C16_query_eq_eval_compressed_partial (m : QMsg) (p : Path) (nested : Lis
 
 /-! ### the bare id
 
-  FULL STATEMENT (not proved; evaluated by the oracle `bare-id` on the implementation and by the correspondence
-  on ~1100 bare-id queries per quick run):
+  `id` alone is the descendant search `>id[:]`.  Proved for all trees (`Lemmas/QueryBare.lean`):
+  `C16_bare_id_descent` — the descent through composite nodes (`keep`; factor, then members; every repetition of a
+  replication in one list, these lists in one envelope) returns, flattened, exactly the nodes labelled with the id
+  in tree order, a matching node not being searched (`matchList`);
+  `C16_bare_id_is_flat_filter` — for an ORDINARY element (`Spec.ordinaryList`, decidable: the id labels no attribute
+  node at any depth and no valueless node) on a tree whose flat indices in tree order are `0 .. n-1`
+  (`C09_wire_indices_consecutive`: tree order = flat order) the flattened values are the values carrying the id in
+  the flat data, in flat order; `C16_bare_id_is_flat_filter_wired` discharges the index hypothesis for the trees
+  the wiring pass builds; `C16_bare_id_query*` lift it to `DataQuerent.query` (uncompressed and compressed). -/
 
-    C16_bare_id_is_flat_filter (o : SubsetOut) (tree : List Node) (id : List Char) (hits : List Hit) (vs : List QV)
-        (hidx : idxList tree = List.range o.vals.length)            -- C09_wire_consumes_each_index_once
-        (hord : OrdinaryElement o.descs tree id)                    -- the id labels no attribute node and no valueless node
-        (h : processOne o.descs tree [⟨'>', id, .range none none none⟩] = .ok hits) (hv : valuesOf o.vals hits = .ok vs) :
-        flattenQV vs = ((o.descs.zip o.vals).filter (fun p => ddChars p.1 = id)).map (·.2)
+/-- the component a bare id is parsed into -/
+theorem C16_bare_comp (id : List Char) : bare id = { sep := '>', id := id, slice := .range none none none } := rfl
 
-  Proved below: the stage without composite nodes (a tree of plain value nodes, no attributes, no replication or
-  sequence): the bare id returns the nodes labelled with the id in tree order.  MISSING: the descent through
-  composite nodes (the `keep` classification, `descStep`: factor, then members; one envelope per replication whose
-  flattening is the concatenation of the repetitions) and the appeal to C09 for "tree order = flat order". -/
+/-- `filter_for_entities` for the bare id: every matching node and every composite node, in document order -/
+theorem C16_filter_for_entities_bare {α : Type} (id : List Char) (cls : α → Match) (xs : List α) :
+    filterEnt (bare id) cls xs = .ok (xs.filter (fun x => decide (cls x ≠ .no))) :=
+  filterEnt_all (bare id) rfl cls xs
 
-/-- first stage of `C16_bare_id_is_flat_filter`: on a tree without composite nodes the bare id selects the nodes
-    carrying the id, all of them (`[:]`), in tree order.  MISSING: see the section header. -/
-theorem C16_bare_id_is_flat_filter_partial (ds : List DDesc) (tree : List Node) (id : List Char)
-    (hflat : ∀ n ∈ tree, composite n = false) :
-    processOne ds tree [{ sep := '>', id := id, slice := .range none none none }] =
-      .ok ((Spec.pickSel (.range none none none) (tree.filter (fun n => nodeLabel ds n = some id))).map Hit.node) := by
-  apply processOne_last ds tree _ (show ('>' : Char) ≠ '.' by decide) _ (show Spec.sliceOK (.range none none none) = true by decide)
-  intro n hn
-  by_cases h : nodeLabel ds n = some id <;> simp [nodeMatch, h, hflat n hn]
+/-- the descent: whatever the tree, a successful bare-id search returns (flattened) the nodes carrying the id, in
+    tree order: factor / attributes of a node before its members, repetition after repetition -/
+theorem C16_bare_id_descent (ds : List DDesc) (tree : List Node) (id : List Char) (hits : List Hit)
+    (h : processOne ds tree [bare id] = .ok hits) : hitNodes hits = matchList ds id tree :=
+  processOne_bare ds id tree hits h
+
+/-- flattening the nested values = reading the values of the flattened node list -/
+theorem C16_values_flatten (vals : List Val) (hits : List Hit) (vs : List QV) (h : valuesOf vals hits = .ok vs) :
+    (flattenQV vs).map some = (hitNodes hits).map (nodeVal vals) :=
+  valuesOf_flatten vals hits vs h
+
+/-- ONE SUBSET, full statement: the bare id of an ordinary element returns, flattened, every value carrying the id
+    in the flat data, in flat order -/
+theorem C16_bare_id_is_flat_filter (o : SubsetOut) (tree : List Node) (id : List Char) (hits : List Hit) (vs : List QV)
+    (hidx : idxList tree = List.range o.vals.length)
+    (hord : Spec.ordinaryList o.descs id tree = true)
+    (h : processOne o.descs tree [{ sep := '>', id := id, slice := .range none none none }] = .ok hits)
+    (hv : valuesOf o.vals hits = .ok vs) :
+    flattenQV vs = ((o.descs.zip o.vals).filter (fun p => ddChars p.1 = id)).map (·.2) :=
+  bare_flat o tree id hits vs hidx hord h hv
+
+/-- the same for the tree the wiring pass builds, when the pass consumed the whole flat list (`hn`, the side
+    condition of C09 — decidable, evaluated by the driver as part of `side_ok`): `hidx` is a theorem -/
+theorem C16_bare_id_is_flat_filter_wired (t : List Desc) (o : SubsetOut) (w : Wired) (tree : List Node) (id : List Char)
+    (hits : List Hit) (vs : List QV)
+    (hw : wireRaw t o = .ok w) (hn : w.st.next = o.vals.length) (ht : w.tree = .ok tree)
+    (hord : Spec.ordinaryList o.descs id tree = true)
+    (h : processOne o.descs tree [bare id] = .ok hits) (hv : valuesOf o.vals hits = .ok vs) :
+    flattenQV vs = Spec.flatFilter o id := by
+  have hwire : wire t o = .ok tree := by unfold wire; rw [hw]; exact ht
+  obtain ⟨w', hw', hi⟩ := C16_wire_indices_consecutive t o tree hwire
+  rw [hw] at hw'
+  cases hw'
+  exact bare_flat o tree id hits vs (by rw [hi, hn]) hord h hv
+
+theorem C16_mapIdx_mem {β : Type} (f : Nat → CM β) : ∀ (l : List Nat) (rs : List β), mapIdx f l = .ok rs →
+    ∀ q ∈ rs, ∃ i ∈ l, f i = .ok q
+  | [], rs, h, q, hq => by simp only [mapIdx] at h; cases h; simp at hq
+  | i :: is, rs, h, q, hq => by
+    simp only [mapIdx] at h
+    split at h
+    · cases h
+    · next b hb =>
+      split at h
+      · cases h
+      · next bs hbs =>
+        cases h
+        rcases List.mem_cons.mp hq with rfl | hq'
+        · exact ⟨i, List.mem_cons_self, hb⟩
+        · obtain ⟨j, hj, hfj⟩ := C16_mapIdx_mem f is bs hbs q hq'
+          exact ⟨j, List.mem_cons_of_mem _ hj, hfj⟩
+
+/-- WHOLE MESSAGE, uncompressed data: every subset of the result of a bare-id query holds, flattened, the values
+    carrying the id in the flat data of that subset, in order (with or without an `@` selector) -/
+theorem C16_bare_id_query (m : QMsg) (sel : Option Slice) (id : List Char) (r : QResult)
+    (hc : m.compressed = false)
+    (hyp : ∀ (i : Nat) (o : SubsetOut) (t : List Node), m.outs[i]? = some o → m.trees[i]? = some t →
+      idxList t = List.range o.vals.length ∧ Spec.ordinaryList o.descs id t = true)
+    (h : query m { subset := sel, comps := [bare id] } = .ok r) :
+    ∀ q ∈ r.subsets, ∃ o, m.outs[q.1]? = some o ∧ flattenQV q.2 = Spec.flatFilter o id := by
+  unfold query at h
+  split at h
+  · cases h
+  · next idxs _ =>
+    simp only [hc, Bool.false_eq_true, if_false] at h
+    split at h
+    · cases h
+    · next rs hrs =>
+      cases h
+      intro q hq
+      obtain ⟨i, _, hi⟩ := C16_mapIdx_mem _ idxs rs hrs q hq
+      unfold uncompressedSubset at hi
+      split at hi
+      · cases hi
+      · next o ho =>
+        split at hi
+        · cases hi
+        · next t ht =>
+          split at hi
+          · cases hi
+          · next hits hh =>
+            split at hi
+            · cases hi
+            · next vs hv =>
+              cases hi
+              obtain ⟨h1, h2⟩ := hyp i o t ho ht
+              exact ⟨o, ho, bare_flat o t id hits vs h1 h2 hh hv⟩
+
+/-- WHOLE MESSAGE, compressed data (one tree `t0`, equal labels): the same, the values being those of each subset -/
+theorem C16_bare_id_query_compressed (m : QMsg) (sel : Option Slice) (id : List Char) (r : QResult)
+    (t0 : List Node) (o0 : SubsetOut)
+    (hc : m.compressed = true) (ht : m.trees[0]? = some t0) (ho : m.outs[0]? = some o0)
+    (hl : ∀ o ∈ m.outs, o.descs = o0.descs)
+    (hyp : ∀ o ∈ m.outs, idxList t0 = List.range o.vals.length ∧ Spec.ordinaryList o.descs id t0 = true)
+    (h : query m { subset := sel, comps := [bare id] } = .ok r) :
+    ∀ q ∈ r.subsets, ∃ o, m.outs[q.1]? = some o ∧ flattenQV q.2 = Spec.flatFilter o id := by
+  unfold query at h
+  split at h
+  · cases h
+  · next idxs _ =>
+    simp only [hc, if_true, ht, ho] at h
+    split at h
+    · cases h
+    · next hits hh =>
+      split at h
+      · cases h
+      · next rs hrs =>
+        cases h
+        intro q hq
+        obtain ⟨i, _, hi⟩ := C16_mapIdx_mem _ idxs rs hrs q hq
+        unfold compressedSubset at hi
+        split at hi
+        · cases hi
+        · next o hoi =>
+          split at hi
+          · cases hi
+          · next vs hv =>
+            cases hi
+            have hmem := List.mem_of_getElem? hoi
+            obtain ⟨h1, h2⟩ := hyp o hmem
+            refine ⟨o, hoi, bare_flat o t0 id hits vs h1 h2 ?_ hv⟩
+            rw [hl o hmem]; exact hh
 
 /-! ### non-vacuity: a wired tree with a delayed replication (counts 2 and 0) and associated-field attributes -/
 
@@ -549,6 +667,36 @@ example : (match wire T O1 with
 example : ((wire T O1).toOption.map idxList) = some [0, 1, 2, 3, 4, 5, 6] := by decide +kernel
 example : (msg).toOption.isSome = true := by decide +kernel
 
+/-! non-vacuity of the bare-id theorems: `012001` (in a delayed replication, each value under an associated field
+    whose attribute is the 031021 meaning) and the replication factor `031001` are ordinary, `031021` is not (it
+    also labels the meaning attribute); indices consecutive; the query succeeds and returns the flat values -/
+def beqVals (a b : List Val) : Bool := a == b
+
+example : (match wire T O1 with
+    | .ok tree => Spec.ordinaryList O1.descs "012001".toList tree && Spec.ordinaryList O1.descs "031001".toList tree &&
+        !Spec.ordinaryList O1.descs "031021".toList tree && decide (idxList tree = List.range O1.vals.length)
+    | .error _ => false) = true := by decide +kernel
+example : (match wire T O1 with
+    | .ok tree => (match processOne O1.descs tree [bare "012001".toList] with
+      | .ok hits => (match valuesOf O1.vals hits with
+        | .ok vs => beqVals (flattenQV vs) [.int 280, .int 281] &&
+            beqQVs vs [.list [.list [.val (.int 280)], .list [.val (.int 281)]]] &&
+            decide ((hitNodes hits).length = 2)
+        | .error _ => false)
+      | .error _ => false)
+    | .error _ => false) = true := by decide +kernel
+example : Spec.flatFilter O1 "012001".toList = [.int 280, .int 281] := by decide +kernel
+example : Spec.flatFilter O1 "031001".toList = [.int 2] := by decide +kernel
+/-- the hypotheses of `C16_bare_id_is_flat_filter_wired` (the pass consumes all 7 values) -/
+example : ((wireRaw T O1).toOption.map fun w => decide (w.st.next = O1.vals.length) && w.tree.toOption.isSome) = some true := by
+  decide +kernel
+/-- whole message: the bare id over both subsets (2 values, none), and over the compressed message -/
+example : (match run none [bare "012001".toList] with
+    | .ok r => r.allValuesFlat == [[.int 280, .int 281], []]
+    | .error _ => false) = true := by decide +kernel
+example : filterEnt (bare "x".toList) (fun (n : Nat) => if n = 0 then Match.no else if n = 1 then .hit else .keep) [2, 0, 1, 1, 0, 3]
+    = (.ok [2, 1, 1, 3] : CM (List Nat)) := by decide +kernel
+
 /-- compressed data: two subsets with the same labels and the same replication count sharing one tree -/
 def O1b : SubsetOut := { O1 with vals := [.int 1, .int 2, .int 7, .int 290, .int 8, .int 291, .int 97] }
 def cmsg : CM QMsg := mkMsg T true [O1, O1b]
@@ -572,6 +720,12 @@ example : (match cmsg with
     | .ok m => isErr .query (query m { subset := some (.range (some 7) none none), comps := [c '/' "001001" all, c '/' "012001" all] })
     | .error _ => false) = true := by decide +kernel
 example : Spec.evalPath [] [] [c '/' "001001" all, c '/' "012001" all] = .ok [] := rfl
+/-- `C16_bare_id_query_compressed` on the compressed message -/
+example : (match cmsg with
+    | .ok m => (match query m { subset := none, comps := [bare "012001".toList] } with
+      | .ok r => r.allValuesFlat == [[.int 280, .int 281], [.int 290, .int 291]]
+      | .error _ => false)
+    | .error _ => false) = true := by decide +kernel
 end C16ex
 
 
